@@ -59,6 +59,10 @@ def run(chk):
     chk.require(cov.get(a, 0) > 0, f'vacuous: action {a} never taken in the exhaustive runs')
   # 2. replay
   models = {k: typedtree.Model(k) for k in ('list', 'list2', 'dict', 'obj', 'nest')}
+  models_p = {'dict': typedtree.Model('dict', True)}      # the partial-mode dict has a schema of its own
+
+  def model_of(kind, partial):
+    return models_p[kind] if partial and kind in models_p else models[kind]
   hits = {}
 
   def add(h):
@@ -72,9 +76,9 @@ def run(chk):
   for kind, partial, tag in KINDS:
     # (list2 exists for the extended-slice actions only: more, longer walks over fewer action families)
     add(typedtree.replay_simulated(chk, kind, partial, f'C03_sim_{tag}.cfg', n1 * (2 if kind == 'list2' else 1),
-                                   d1 * (2 if kind == 'list2' else 1), chk.seed, models[kind]))
+                                   d1 * (2 if kind == 'list2' else 1), chk.seed, model_of(kind, partial)))
     if (thorough or not partial) and kind != 'list2':      # (the list2 configuration is an Avoid pass itself)
-      add(typedtree.replay_simulated(chk, kind, partial, f'C03_sim_avoid_{tag}.cfg', n2, d2, chk.seed + 1, models[kind]))
+      add(typedtree.replay_simulated(chk, kind, partial, f'C03_sim_avoid_{tag}.cfg', n2, d2, chk.seed + 1, model_of(kind, partial)))
   chk.notes['action_outcome_hits'] = dict(sorted(hits.items()))
   chk.require(hits.get('valid_write_rejected', 0) == 0,
               f'the code rejected {hits.get("valid_write_rejected", 0)} writes the specification accepts '
